@@ -226,6 +226,7 @@ func genAction(t *rapid.T, p *Program, ws []weighted) Action {
 	case "restoreinflight":
 		a.N = rapid.IntRange(0, 4).Draw(t, "extraInFlight")
 		a.Arg = rapid.IntRange(0, 2).Draw(t, "where")
+		a.Set = []int{oneOf(t, "membershipInFlight", 0, 0, 1, 2, 3)}
 	case "slowtransfer":
 		a.N = oneOf(t, "afterMs", 0, 1, 5, 20)
 		a.Arg = rapid.IntRange(0, 3).Draw(t, "call")
